@@ -126,6 +126,7 @@ fn ctype_value(class: &str, v: usize) -> Option<&'static str> {
         "text_latin1" => Some(pick(&["text/plain; charset=iso-8859-1", "text/plain; charset=windows-1252", "text/plain;charset=latin1"], v)),
         "text_unknown_charset" => Some(pick(&["text/plain; charset=klingon", "text/plain; charset=x-nope"], v)),
         "binary" => Some(pick(&["application/octet-stream", "image/png"], v)),
+        "malformed" => Some(pick(&["json", "text", "application/json, application/json"], v)),
         "text_utf16le" => Some(pick(&["text/plain; charset=utf-16le", "text/html;charset=UTF-16LE"], v)),
         "text_2022jp" => Some(pick(&["text/plain; charset=iso-2022-jp", "text/plain; charset=csISO2022JP"], v)),
         "text_replacement" => Some(pick(&["text/plain; charset=iso-2022-kr", "text/plain; charset=hz-gb-2312"], v)),
